@@ -27,7 +27,10 @@ fn ext_of(class: usize, rng: &mut Rng) -> ExtSpec {
 
 fn mgr_kind(k: usize) -> TableMgr {
     match k {
-        0 => TableMgr { known: vec![(0x0042, false, 3), (0x0043, true, 2), (0x0044, false, 0), (0x0045, false, 8), (0x0046, true, 0), (0x0081, true, 0)] },
+        0 => TableMgr {
+            known: vec![(0x0042, false, 3), (0x0043, true, 2), (0x0044, false, 0), (0x0045, false, 8), (0x0046, true, 0), (0x0081, true, 0),
+                        (0x0000, false, 1), (0x00FF, false, 2), (0x0047, false, 255)],
+        },
         1 => TableMgr { known: vec![(0x0042, false, 3), (0x0081, true, 0)] },
         _ => TableMgr { known: vec![] },
     }
@@ -141,6 +144,44 @@ pub fn run(out: &mut Out, seed: u64, thorough: bool) {
         // a PDU that cannot be sent complete even in a large buffer
         if ci % 6 == 0 {
             one(out, &mut rng, &exts, ptype, label, 4090, 4097, 0, "long");
+        }
+    }
+    // extension ids at the edges of every class: first and last optional id of each H-LEN, first and last
+    // mandatory id; a mandatory extension as long as a receiver's manager can describe (255 bytes)
+    let edge: Vec<ExtSpec> = vec![
+        ExtSpec { id: 0x0100, data: vec![] },
+        ExtSpec { id: 0x01FF, data: vec![] },
+        ExtSpec { id: 0x0200, data: rng.bytes(2) },
+        ExtSpec { id: 0x02FF, data: rng.bytes(2) },
+        ExtSpec { id: 0x0300, data: rng.bytes(4) },
+        ExtSpec { id: 0x03FF, data: rng.bytes(4) },
+        ExtSpec { id: 0x0400, data: rng.bytes(6) },
+        ExtSpec { id: 0x04FF, data: rng.bytes(6) },
+        ExtSpec { id: 0x0500, data: rng.bytes(8) },
+        ExtSpec { id: 0x05FF, data: rng.bytes(8) },
+        ExtSpec { id: 0x0000, data: rng.bytes(1) },
+        ExtSpec { id: 0x00FF, data: rng.bytes(2) },
+        ExtSpec { id: 0x0047, data: rng.bytes(255) },
+    ];
+    for (i, e) in edge.iter().enumerate() {
+        let label = labels[i % 3];
+        let plen = 9 + i;
+        let complete_len = 4 + label.len() + 2 + e.data.len() + plen;
+        one(out, &mut rng, std::slice::from_ref(e), 0x0800, label, plen, complete_len, 0, "edge_id_complete");
+        one(out, &mut rng, std::slice::from_ref(e), 0x0600, label, plen, complete_len - 3, 0, "edge_id_fragmented");
+        // two in a row: the id is also read back as "next type" after another extension
+        let two = [ExtSpec { id: 0x0211, data: vec![7, 7] }, e.clone()];
+        one(out, &mut rng, &two, 0xFFFF, label, plen, complete_len + 4, 0, "edge_id_second");
+    }
+    // mandatory extensions longer than 255 bytes: a sender may build them (the receiver's manager cannot describe
+    // them, so nothing is fed); every length the sender reports must still be the length it wrote
+    for n in [256usize, 257, 300, 511, 512, 1000] {
+        let e = [ExtSpec { id: 0x0048, data: rng.bytes(n) }];
+        let pdu = Pdu::random(out, 20, &mut rng);
+        for buf in [4 + 3 + 2 + n + 20, 4097, 100, 7 + 3 + 2 + n, 7 + 3 + 2 + n + 5, (n % 256) + 30] {
+            out.begin("ext", Obj::new().str("what", "long_mandatory").boolean("lock", false));
+            let mut enc = Encapsulator::new(DefaultCrc {});
+            ev_encap(out, &mut enc, &pdu, 3, LA3, 0x0800, buf, Some(&e), None);
         }
     }
     // plain encap with a signalling protocol type (a final mandatory extension without data in the type
